@@ -5,10 +5,12 @@ import (
 	"errors"
 	"fmt"
 	"os"
+	"reflect"
 	"sort"
 	"strings"
 	"sync"
 	"syscall"
+	"unsafe"
 
 	"go.uber.org/zap"
 	"go.uber.org/zap/zapcore"
@@ -371,9 +373,14 @@ func (s *c20Sim) watchNotify(err error) bool {
 	if consumed < 0 {
 		consumed = 0
 	}
-	if s.notifs-consumed > 0 {
-		s.r.Count("probe.notification_already_pending")
+	// One more may be in flight behind it: its sender (a provider goroutine) blocks in the resolver until the loop has
+	// taken the first, e.g. a watch error raised while a change notification is still waiting for a busy run loop.
+	if s.notifs-consumed > 1 {
+		s.r.Count("probe.two_notifications_already_pending")
 		return false
+	}
+	if s.notifs-consumed > 0 {
+		s.r.Count("probe.notification_behind_a_pending_one")
 	}
 	s.notifs++
 	s.watchTasks = append(s.watchTasks, simkit.Go("watch-notify", func(*simkit.Task) {
@@ -609,8 +616,28 @@ func (s *c20Sim) cleanup() {
 		s.col.Shutdown()
 		s.r.Settle()
 	}
-	// pending watcher notifications: drain by shutting the provider's channel is the resolver's job; a task blocked on
-	// the watcher channel after Run returned is released by the resolver's close (panics -> recovered)
+	// pending watcher notifications: a task blocked on the watcher channel is released by the resolver's close at
+	// shutdown (send on a closed channel panics -> recovered). After a FAILED reload Run returns without shutting the
+	// provider down and a sender would stay blocked for ever: take its notification ourselves so that the bubble can end.
+	blocked := func() bool {
+		for _, t := range s.watchTasks {
+			if !t.Done() {
+				return true
+			}
+		}
+		return false
+	}
+	if s.run.Done() && blocked() {
+		f := reflect.ValueOf(s.col).Elem().FieldByName("configProvider")
+		cp := (*otelcol.ConfigProvider)(unsafe.Pointer(f.Pointer()))
+		for i := 0; i < 4 && blocked(); i++ {
+			select {
+			case <-cp.Watch():
+			default:
+			}
+			s.r.Settle()
+		}
+	}
 }
 
 var HarnessC20 = simkit.Harness{
